@@ -19,7 +19,8 @@ Coincides(t) == HasForm(t, C.ev, "inc") \/ HasForm(t, C.ev, "skip")
 Targets(r) ==
   LET d == Denote(C.chrom, C.gene, T(r), r)
   IN {a[1] : a \in {x \in AltSeqs(C.chrom, T(r), C.ev) : x[2] = d}}
-Annotated(f) == \E k \in 1..Len(C.txs) : HasForm(C.txs[k], C.ev, f)
+TightCarrier(t) == HasFormTight(t, C.ev, "inc") \/ HasFormTight(t, C.ev, "skip")
+Annotated(f) == \E k \in 1..Len(C.txs) : HasFormTight(C.txs[k], C.ev, f)
 Recs == {C.records[k] : k \in 1..Len(C.records)}
 Scoped == {r \in Recs : Coincides(T(r))}
 
@@ -33,7 +34,9 @@ Missing ==
 
 Verdict ==
   /\ Clause("alternative_form", \A r \in Scoped : Targets(r) # {})
-  /\ Clause("form_already_annotated", \A r \in Scoped : Targets(r) # {} => \E f \in Targets(r) : ~Annotated(f))
+  /\ Clause("form_already_annotated", \A r \in {x \in Scoped : TightCarrier(T(x))} : Targets(r) # {} => \E f \in Targets(r) : ~Annotated(f))
+  /\ Clause("form_already_annotated_interjacent",
+        \A r \in {x \in Scoped : ~TightCarrier(T(x))} : Targets(r) # {} => \E f \in Targets(r) : ~Annotated(f))
   /\ Clause("below_threshold",
         \A r \in Scoped : Targets(r) # {} => \E f \in Targets(r) : Supported(f, C.ijc, C.sjc, C.minIjc, C.minSjc))
   /\ Info("info_two_records_one_form",
